@@ -1519,6 +1519,11 @@ impl<T: Transport, Env: UtpEnvironment> VirtualSocket<T, Env> {
             pending_if_cannot_send!(self.process_all_incoming_messages(cx));
 
             // Flow control: flush as many in-order messages to user RX as possible.
+            // The window is advertised as 0 below the current MSS (see rx_window()), which grows
+            // as larger payloads get through. The reader must wake us up in that whole range.
+            if let Some(mss) = NonZeroUsize::new(self.segment_sizes.mss() as usize) {
+                self.user_rx.set_max_incoming_payload(mss);
+            }
             bail_if_err!(self.user_rx.flush(cx).map(|_| ()));
 
             if self
